@@ -3,3 +3,4 @@ From Coq Require Import String List Bool.
 From V9 Require Import Gen.Shape Shape.ShapeLib.
 
 Lemma recv_rereads_dialect_ok : recv_rereads_dialect = true.  Proof. vm_compute. reflexivity. Qed.
+Lemma size_checked_against_msize_ok : size_checked_against_msize = true.  Proof. vm_compute. reflexivity. Qed.
